@@ -123,6 +123,8 @@ var checks = map[string]struct {
 	"C06": {drivers.PrepareC06, "model_checking"},
 	"C07": {drivers.PrepareC07, "model_checking"},
 	"C08": {drivers.PrepareC08, "model_checking"},
+	"C09": {drivers.PrepareC09, "model_checking"},
+	"C18": {drivers.PrepareC18, "model_checking"},
 	"C20": {drivers.PrepareC20, "model_checking"},
 }
 
